@@ -89,6 +89,36 @@ Proof.
   - cbn [app map fst snd]. f_equal. apply IH; assumption.
 Qed.
 
+(* C05, unconditionally: whatever the bodies do (break, fail, leave a break
+   depth pending), the iterations that are entered are those of the elements
+   number i, i+1, ..., i+m-1 for some m: in order, each element at most once,
+   without gaps, each with its own element *)
+Lemma vloop_entries_broken n : forall xs i c, vloop_entries n xs i c true = [].
+Proof.
+  induction xs as [|x xs IH]; intros i c; [reflexivity|]. cbn [vloop_entries].
+  cbn [iterate]. cbn [orb]. apply IH.
+Qed.
+
+Theorem vloop_entries_are_a_prefix n : forall xs i c,
+  exists m, m <= List.length xs /\
+    map (fun e => (fst (fst e), snd (fst e))) (vloop_entries n xs i c false) = combine (seq i m) (firstn m xs).
+Proof.
+  induction xs as [|x xs IH]; intros i c.
+  - exists 0. split; [lia|reflexivity].
+  - cbn [vloop_entries].
+    set (c1 := ctx_set (set_key n c i) (loopVal n) (VNode x) InsVector).
+    destruct (iterate fr n c1 false) as [[c2 brk'] st] eqn:It. cbn [orb].
+    destruct (negb (Nat.eqb (brkD c1) 0)) eqn:Hp.
+    + (* a pending depth: the iteration is not entered and the loop is broken *)
+      assert (brk' = true).
+      { unfold iterate in It. rewrite Hp in It. inversion It. reflexivity. }
+      subst brk'. rewrite vloop_entries_broken. exists 0. split; [lia|reflexivity].
+    + destruct brk'.
+      * rewrite vloop_entries_broken. exists 1. split; [simpl; lia|reflexivity].
+      * destruct (IH (S i) c2) as [m [Hm Em]]. exists (S m). split; [simpl; lia|].
+        cbn [app map fst snd seq firstn combine]. f_equal. exact Em.
+Qed.
+
 (* an absent source gives zero iterations and no error *)
 Lemma rloop_absent n c k rest v :
   split_path (loopSrc n) = k :: rest -> find_var (vars c) k = Some (VNode v, InsVector) ->
